@@ -215,6 +215,10 @@ func ruleFitComparators(c *Ctx) {
 	}
 	found, _ := guardControlsReturn(crf, relMatcher("!=", resultOfCall(F(cmp)), isConstInt(0)), func(*ssa.Return) bool { return true })
 	c.Check(okLoop && retCmp && found, rule, "CompareRegionFit rule loop", "rule fits are compared in order and the first difference is returned", P.pos(crf.Pos()), "")
+	c.need(rule, crf, "return of a rule comparison", func(x ssa.Instruction) bool {
+		r, ok := x.(*ssa.Return)
+		return ok && valueIsCallTo(retVal(r, 0), F(cmp))
+	}, []Ev{guardRel("the comparison of this pair != 0", "!=", resultOfCall(F(cmp)), isConstInt(0))}, all, "a pair's comparison is returned only when it is a difference: equal pairs pass on to the next rule")
 	// the tail, evaluated with no rule fits to compare: fewer orphans wins
 	fFits := P.Field(plc, "RegionFit", "RuleFits")
 	okTail, tailDetail := true, ""
@@ -795,6 +799,17 @@ func ruleSearchExhaustive(c *Ctx) {
 				}
 				keeps := derivesThroughBool(e, func(v ssa.Value) bool { return v == ssa.Value(phi) }, 6)
 				calls := derivesThroughBool(e, func(v ssa.Value) bool { return valueIsCallTo(v, F(en)) }, 6)
+				// the two rows of the truth table that matter, for the shapes `call || old`, `old || call`,
+				// `if call { flag = true }`: (call, ¬old) ↦ true and (¬call, old) ↦ true
+				if keeps && calls {
+					isCall := func(v ssa.Value) bool { return valueIsCallTo(v, F(en)) }
+					isOld := func(v ssa.Value) bool { return v == ssa.Value(phi) }
+					for _, row := range [][2]bool{{true, false}, {false, true}} {
+						if r, ok := evalFlag(e, isCall, isOld, row[0], row[1], 6); ok && !r {
+							keeps = false
+						}
+					}
+				}
 				c.Check(keeps && calls, rule, "improvement flag of "+fnName(en), "the flag carried round the candidate loop is (this combination improved) ∨ (an earlier one did): no improvement is forgotten", P.instrPos(phi), fmt.Sprintf("keeps the earlier answers: %v, takes the recursive answer: %v", keeps, calls))
 			}
 		}
@@ -811,6 +826,37 @@ func ruleSearchExhaustive(c *Ctx) {
 		return !(isC && b)
 	}, []Ev{guardCall("fitRule(index+1) reported an improvement", true, callMatcher(fitRule))}, func(h []bool) bool { return !h[0] },
 		"when a tie on this rule let the following rules find a better fit, the improvement is reported to the rule above")
+	// (3) a strictly better fit is reported as an improvement, and a tie that let the following rules improve installs
+	// this rule's own fit of the combination that made it possible
+	cmpRF := F(P.Func(pl, "compareRuleFit"))
+	strictly := guardRel("cmp == 1", "==", func(v ssa.Value) bool {
+		for _, a := range valueAlternatives(v, 2) {
+			if valueIsCallTo(a, cmpRF) {
+				return true
+			}
+		}
+		return false
+	}, isConstInt(1))
+	c.need(rule, cbF, "answer other than true (after a strictly better fit)", func(x ssa.Instruction) bool {
+		r, ok := x.(*ssa.Return)
+		if !ok || len(r.Results) != 1 {
+			return false
+		}
+		b, isC := constBool(retVal(r, 0))
+		return !(isC && b)
+	}, []Ev{strictly}, func(h []bool) bool { return !h[0] }, "a strictly better fit for this rule is reported to the rule above")
+	fitsF := P.Field(pl, "RegionFit", "RuleFits")
+	c.mustFollowEdge(rule, cbF, "fitRule(index+1) reported an improvement", func(cond ssa.Value, pos bool) bool {
+		cl, ok := cond.(*ssa.Call)
+		return ok && pos && fitRule.Match(cl.Common())
+	}, "bestFit.RuleFits[index] = rf", func(x ssa.Instruction) bool {
+		st, ok := x.(*ssa.Store)
+		if !ok || isNilConst(st.Val) {
+			return false
+		}
+		ia, ok := st.Addr.(*ssa.IndexAddr)
+		return ok && isLoadOf(ia.X, fitsF)
+	}, nil, "the later rules were fitted against this combination: it becomes this rule's fit")
 	cr := P.Func(pl, "checkRule")
 	match := F(P.Func(pl, "MatchLabelConstraints"))
 	c.saw(fnName(cr))
@@ -908,4 +954,91 @@ func controllingConds(b *ssa.BasicBlock, depth int) []ssa.Value {
 		b = b.Preds[0]
 	}
 	return out
+}
+
+// evalFlag evaluates a boolean built from a call result and an old flag through
+// φs of short-circuit operators and if-assignments, for one row of the truth
+// table. ok=false when the shape is not understood (the caller then keeps the
+// structural verdict).
+func evalFlag(v ssa.Value, isCall, isOld valPred, call, old bool, depth int) (bool, bool) {
+	if depth < 0 {
+		return false, false
+	}
+	switch {
+	case isCall(v):
+		return call, true
+	case isOld(v):
+		return old, true
+	}
+	if b, isC := constBool(v); isC {
+		return b, true
+	}
+	switch x := v.(type) {
+	case *ssa.UnOp:
+		if x.Op == token.NOT {
+			r, ok := evalFlag(x.X, isCall, isOld, call, old, depth-1)
+			return !r, ok
+		}
+	case *ssa.Phi:
+		// which operand is taken is decided by the If instructions on the way: follow, for every predecessor, the single
+		// -predecessor chain up to a test whose condition can be evaluated, and keep the predecessors that are consistent
+		var vals []bool
+		for i, e := range x.Edges {
+			if i >= len(x.Block().Preds) {
+				return false, false
+			}
+			feasible := true
+			b, child := x.Block().Preds[i], x.Block()
+			for d := 0; d < 4 && b != nil; d++ {
+				if iff, ok := b.Instrs[len(b.Instrs)-1].(*ssa.If); ok {
+					if cv, okc := evalFlag(iff.Cond, isCall, isOld, call, old, depth-1); okc {
+						taken := b.Succs[0] == child
+						if len(b.Succs) == 2 && b.Succs[0] == b.Succs[1] {
+							taken = cv
+						}
+						if cv != taken {
+							feasible = false
+						}
+					}
+				}
+				if len(b.Preds) != 1 {
+					break
+				}
+				child, b = b, b.Preds[0]
+			}
+			if !feasible {
+				continue
+			}
+			r, ok := evalFlag(e, isCall, isOld, call, old, depth-1)
+			if !ok {
+				return false, false
+			}
+			vals = append(vals, r)
+		}
+		if len(vals) == 0 {
+			return false, false
+		}
+		for _, r := range vals[1:] {
+			if r != vals[0] {
+				return false, false // not decided by the tests seen
+			}
+		}
+		return vals[0], true
+	case *ssa.BinOp:
+		a, ok1 := evalFlag(x.X, isCall, isOld, call, old, depth-1)
+		b, ok2 := evalFlag(x.Y, isCall, isOld, call, old, depth-1)
+		if ok1 && ok2 {
+			switch x.Op {
+			case token.AND:
+				return a && b, true
+			case token.OR:
+				return a || b, true
+			case token.EQL:
+				return a == b, true
+			case token.NEQ, token.XOR:
+				return a != b, true
+			}
+		}
+	}
+	return false, false
 }
